@@ -19,11 +19,16 @@ namespace Incan.Derive
 def addIfMissing (l : List String) (name : String) : List String :=
   if l.contains name then l else l ++ [name]
 
+/-- Eq requires PartialEq. -/
+def eqStep (l : List String) : List String := if l.contains "Eq" then addIfMissing l "PartialEq" else l
+/-- PartialOrd requires PartialEq (added by a `fix:` commit). -/
+def partialOrdStep (l : List String) : List String := if l.contains "PartialOrd" then addIfMissing l "PartialEq" else l
+/-- Ord requires PartialOrd and Eq (and thus PartialEq). -/
+def ordStep (l : List String) : List String :=
+  if l.contains "Ord" then addIfMissing (addIfMissing (addIfMissing l "PartialOrd") "Eq") "PartialEq" else l
+
 /-- `extract_derives` on the names written in `@derive(...)`. -/
-def extractDerives (written : List String) : List String :=
-  let d1 := if written.contains "Eq" then addIfMissing written "PartialEq" else written
-  if d1.contains "Ord" then addIfMissing (addIfMissing (addIfMissing d1 "PartialOrd") "Eq") "PartialEq"
-  else d1
+def extractDerives (written : List String) : List String := ordStep (partialOrdStep (eqStep written))
 
 /-- `lower_model` / `lower_class`: Debug and Clone are always present. -/
 def structDerives (written : List String) : List String :=
